@@ -7,6 +7,9 @@ VERIF = os.path.dirname(os.path.dirname(os.path.abspath(__file__)))
 
 # id -> (technique, level text, level note, design ref)
 CHECKS = {
+    "C11": ("model-based oracle with unique power-of-two task weights: per-sample accumulator comparison of both runtimes against a multiset model",
+            "Generated task sets (global scope / from dsp / from running tasks / self-rescheduling chains, fractional and equal times, up to 2000 pending, three insertion orders) are run on VM and WASM; every sample's accumulators must equal a 20-line model in which each task runs exactly once before dsp of sample floor(t). Unique weights turn a missing, early or duplicated run into one f64 mismatch.",
+            "Effects commute so same-sample order is free; WASM is judged only on task sets outside the two recorded WASM findings (closures allocated in the per-tick arena, more than 40 tasks from global scope).", "DESIGN.md §3 C11"),
     "C07": ("model-based trace oracle: per-channel Rust models of voice templates with unmatchable state shapes, edit histories (insert/delete/replace/nest/constant/compile error) with hot swaps on both runtimes",
             "Every channel of every sample after every swap is compared bitwise with an independent model of its voice whose state survives a swap exactly when the property says it must; histories of 1-4 edits at dense early and random later swap times, failed compiles injected between samples.",
             "Voice templates are used at most once per program and survivors are never reordered, so the expected continuation is unambiguous; the models are validated against the uninterrupted run of every case first.", "DESIGN.md §3 C07"),
